@@ -29,16 +29,21 @@ META = {
                   "mutations, truncations, arbitrary bodies and content-type variants must succeed or raise "
                   "HTTPInputError. max_parts and max_part_header_size are probed one below, at and one above the "
                   "form's own size.",
-    "level_note": "Trusts the 150-line encoder (RFC 7578/2046 writer, RFC 2045 quoted-string, RFC 2231/5987 ext-value). "
-                  "urlencoded names are compared as bytes (Tornado documents that keys are latin-1 str). Empty names, "
-                  "empty filenames, parameter-name case variants, RFC 2231 continuations and header sizes between "
-                  "the three readings of 'header size' are executed but not gated.",
+    "level_note": "Trusts the 200-line encoder (RFC 7578/2046 writer, RFC 2045 quoted-string, RFC 2231/5987 ext-value, "
+                  "RFC 2231 section 3 continuations and section 4.1 continuations with charset information, sections "
+                  "cut at character boundaries, numbered 0.. contiguously, regular sections of a charset-carrying "
+                  "parameter ASCII only). urlencoded names are compared as bytes (Tornado documents that keys are "
+                  "latin-1 str). Empty names, empty filenames, parameter-name case variants, malformed RFC 2231 "
+                  "continuations (gaps, duplicates, both name*= and name*0=) and header sizes between the three "
+                  "readings of 'header size' are executed but not gated.",
     "design_ref": "DESIGN.md §4 C30",
     "engine": "oracle",
 }
 RULE = ("forms of 0-6 parts over an adversarial alphabet (quotes, backslashes, ';', '=', CR/LF, NUL, non-BMP, "
         "boundary-like '--' runs, all byte values) encoded with random valid choices (percent-encoding, parameter form "
-        "token/quoted-string/RFC 2231, header case, boundary alphabet/quoting, preamble/epilogue); mutations: every "
+        "token/quoted-string/RFC 2231 ext-value/RFC 2231 continuations (1-13 regular sections, or charset-carrying "
+        "with regular and extended sections mixed; in or out of order, interleaved between name and filename), "
+        "header case, boundary alphabet/quoting, preamble/epilogue); mutations: every "
         "single-byte edit of short bodies, truncations, random bytes, content-type variants; limits at n-1/n/n+1. "
         "A lossless case is non-trivial if it has >= 1 part whose name, filename or value is not a plain token; a "
         "mutation/limit case always is. Distinct by (content-type, body, config).")
@@ -50,7 +55,8 @@ ASSUMPTIONS = [
     "'header size' of a part may be read with or without the terminating CRLFs: sizes in that 4-byte window are not gated",
 ]
 REQUIRED_COUNTERS = ["oracle_evals", "lossless_url", "lossless_mp", "safety_evals", "limit_parts_evals",
-                     "limit_header_evals", "mp_form_quoted", "mp_form_ext", "mp_form_token", "mp_files"]
+                     "limit_header_evals", "mp_form_quoted", "mp_form_ext", "mp_form_token", "mp_form_cont",
+                     "mp_form_contx", "mp_fnform_cont", "mp_fnform_contx", "mp_files"]
 
 # ---------------------------------------------------------------------------
 # generators
@@ -327,10 +333,10 @@ def gen_cases(spec):
 def directed_cases():
     import random
 
-    def mp(parts, forms=None, preamble=b"", boundary="BOUNDARY"):
+    def mp(parts, forms=None, preamble=b"", boundary="BOUNDARY", hseed=1):
         hb = None
         if forms:
-            hb = [fe.build_part_headers(p, random.Random(1), force_name_form=f[0], force_fn_form=f[1])
+            hb = [fe.build_part_headers(p, random.Random(hseed), force_name_form=f[0], force_fn_form=f[1])
                   for p, f in zip(parts, forms)]
         ct, body, b = fe.enc_multipart(parts, random.Random(2), preamble=preamble, epilogue=b"\r\n",
                                        boundary=boundary, header_blocks=hb)
@@ -343,6 +349,18 @@ def directed_cases():
     yield mp([fe.Part("f", b"v", filename='a"b', ctype="text/plain")], [("token", "ext")])
     yield mp([fe.Part("f", b"v", filename="a\\b", ctype="text/plain")], [("token", "ext")])
     yield mp([fe.Part("a\\", b"v", filename="x", ctype="text/plain")], [("quoted", "quoted")])
+    # RFC 2231 continuations (section 3: regular sections only; section 4.1: with charset information), as the
+    # name, the filename or both, with and without another kind of parameter in the same header
+    long = "quarterly report 2024 (final); v=2 \"x\".pdf"
+    for nf, ff in (("cont", None), ("contx", None), ("cont", "cont"), ("token", "cont"), ("quoted", "cont"),
+                   ("cont", "quoted"), ("ext", "cont"), ("cont", "ext"), ("contx", "cont"), ("cont", "contx"),
+                   ("token", "contx"), ("contx", "contx")):
+        for k in (1, 2, 3):
+            if ff is None:
+                part = fe.Part("field name " + "n" * 20, b"v")
+            else:
+                part = fe.Part("upload field" if nf != "token" else "upload", b"v", filename=long, ctype="text/plain")
+            yield mp([part], [(nf, ff)], hseed=k)
     yield mp([fe.Part("a", b"v")], preamble=b"preamble\r\n")
     yield mp([fe.Part("a", b"v")], preamble=b"\r\n")
     base = mp([fe.Part("a", b"1"), fe.Part("b", b"2")])
